@@ -325,6 +325,8 @@ NOT_DECIDED.update({
 ARCH_TRUST = ['XFile::PathsAreEqual as an uninterpreted deterministic relation g_match (its case and "./" insensitivity is std::filesystem behaviour, not decided)',
               'virtual GetName(i) bound to its contract: returns the i-th name, throws iff i >= count (proved for VolFile/ClmFile::GetName where claimed)']
 G('arch.GetCount', ['C17'], 'arch', 'ArchiveFile_GetCount', reach=NOEXC)
+G('arch.ComparePathFilenames', ['C01', 'C02', 'C03', 'C18'], 'arch', 'ArchiveFile_ComparePathFilenames', reach=NOEXC, replace=['XFile_GetFilename', 'StringUtility_IsEqualCaseInsensitive_U'],
+  trusted=['XFile::GetFilename (std::filesystem) uninterpreted; the comparator by its contract (group str.IsEqualCaseInsensitive)'], what='sort comparator = the proved case-insensitive comparator applied to the file names of the two paths, in argument order')
 G('arch.VerifyIndexInBounds', ['C17', 'C05'], 'arch', 'ArchiveFile_VerifyIndexInBounds', reach=EXC2)
 G('arch.GetIndex', ['C17', 'C01'], 'arch', 'ArchiveFile_GetIndex', solver='cvc5', reach=EXC2, replace=['ArchiveFile_GetCount', 'Arch_GetName', 'XFile_PathsAreEqual'], trusted=ARCH_TRUST, timeout=600, stage2='OP2_BOUNDED=4',
   what='throws iff no member matches, else returns the least matching index; any member count')
